@@ -39,11 +39,19 @@ Definition s_eval (s : sstate) (x : Q) : Q :=
   | SGauss => s_norm s * expo (-(1 # 2) * sq ((x - s_mean s) * s_recip s))
   end.
 
-(* _get_bin_power_spectral_density(lower, upper): trapezoid in the base class, erf difference in
-   GaussianSpectrum (which divides by the already updated _delta_wavelength) *)
+Definition qmax (a b : Q) : Q := if Qle_bool a b then b else a.
+Definition qmin (a b : Q) : Q := if Qle_bool a b then a else b.
+
+(* _get_bin_power_spectral_density(lower, upper).  ConstantSpectrum (since 879f8f0): the fraction of
+   the bin that lies inside [min, max], divided by (max - min) * (upper - lower), 0 when the overlap
+   is empty.  GaussianSpectrum: erf difference, divided by the already updated _delta_wavelength.
+   (The trapezoid of the base class is not used by either class any more.) *)
 Definition bin_psd (s : sstate) (delta lo hi : Q) : Q :=
   match sk s with
-  | SConst => (1 # 2) * (s_eval s lo + s_eval s hi)
+  | SConst =>
+      let l := qmax lo (s_min s) in
+      let u := qmin hi (s_max s) in
+      if Qle_bool u l then 0 else (u - l) / ((s_max s - s_min s) * (hi - lo))
   | SGauss => (1 # 2) * (erf ((hi - s_mean s) * s_ncdf s) - erf ((lo - s_mean s) * s_ncdf s)) / delta
   end.
 
